@@ -193,7 +193,7 @@ def run_case(spec, tier):
             res["violations"].append({"signature": sig, "replay": None, "summary": "(same known finding) `%s`" % "; ".join(lines)})
             continue
         path = common.write_replay(PROP, gradcase._safe("%s_%d" % (spec["name"], k)), replay_source(lines))
-        ok, out = common.run_replay(path)
+        ok, out = common.run_replay(path, count=known is None)
         if ok:
             if known is not None:
                 res["known_confirmed"] = True
